@@ -10,6 +10,7 @@ def kanaOps (op : String) (arg : String) : Option String :=
   | "kana" => some (match KanaAlpha.convert Gen.KanaAlpha.table (parseCps arg) with
       | some r => "ok " ++ showCps r
       | none => "nonterminating")
+  | "nfd" => some ("ok " ++ showCps (KanaAlpha.nfdKana (parseCps arg)))
   | _ => none
 
 end Driver
